@@ -80,6 +80,7 @@ pub struct Strat {
     pub freeze: Option<(usize, u64)>, // (thread, k): stop thread at its k-th scheduling point
     pub freeze_solo: bool,            // until it freezes the victim runs alone (from freeze_from on)
     pub freeze_from: u32,             // ... counting only the scheduling points it reaches from this phase on
+    pub lockspin_all: bool,           // every thread may execute lock attempts that fail (a peer frozen inside a critical section)
     pub tick_after: u32,              // a spinning timed waiter gets forced clock ticks after this many clock reads
     pub script: Vec<u32>,             // recorded decisions to follow (replay)
     pub max_steps: u64,
@@ -101,6 +102,7 @@ impl Default for Strat {
             freeze_from: 0,
             freeze_solo: false,
             tick_after: 40,
+            lockspin_all: false,
             script: vec![],
             max_steps: 200_000,
             tick_phase: 0,
@@ -268,7 +270,7 @@ impl Sched {
             kv::AB_CAS => {
                 let cur = *self.atom.get(&p.addr).unwrap_or(&0);
                 let expect = p.a >> 8;
-                if cur != expect && expect == 0 && !self.realtime[i] && !self.lockspin[i] {
+                if cur != expect && expect == 0 && !self.realtime[i] && !self.lockspin[i] && !self.strat.lockspin_all {
                     return false; // a blocking lock attempt that would fail: not worth executing
                 }
                 allow_idle || !self.is_spinning(i)
